@@ -205,20 +205,26 @@ pub fn key_of(seed: u64, idx: u16) -> [u8; 32] {
 }
 
 pub fn start_node_with(fabric: &Fabric, idx: u16, key: [u8; 32], name: &str, alt: Option<&str>, cfg: Config) -> anyhow::Result<Node> {
-    start_node_opts(fabric, idx, key, name, alt, cfg, false)
+    start_node_opts(fabric, idx, key, name, alt, cfg, 0)
 }
 
-/// `custom_outbound_layer`: also install a (transparent) user outbound request layer
-pub fn start_node_opts(fabric: &Fabric, idx: u16, key: [u8; 32], name: &str, alt: Option<&str>, cfg: Config, custom_outbound_layer: bool) -> anyhow::Result<Node> {
+/// `custom_outbound_layer`: 1 = also install a (transparent) user outbound request layer, after the
+/// configuration was given to the builder; 2 = the same, but BEFORE the configuration is given (the
+/// builder's setters may be called in any order)
+pub fn start_node_opts(fabric: &Fabric, idx: u16, key: [u8; 32], name: &str, alt: Option<&str>, cfg: Config, custom_outbound_layer: u8) -> anyhow::Result<Node> {
     let addr = Fabric::addr(idx);
     let sock = fabric.socket(addr);
     let svc = Svc::new();
     let shared = svc.shared();
-    let mut b = Network::bind("127.0.0.1:0").private_key(key).server_name(name).config(cfg).verif_socket(sock);
+    let mut b = if custom_outbound_layer == 2 {
+        Network::bind("127.0.0.1:0").outbound_request_layer(tower::layer::util::Identity::new()).verif_socket(sock).server_name(name).private_key(key).config(cfg)
+    } else {
+        Network::bind("127.0.0.1:0").private_key(key).server_name(name).config(cfg).verif_socket(sock)
+    };
     if let Some(a) = alt {
         b = b.alternate_server_name(a);
     }
-    if custom_outbound_layer {
+    if custom_outbound_layer == 1 {
         b = b.outbound_request_layer(tower::layer::util::Identity::new());
     }
     let net = b.start(svc)?;
